@@ -23,6 +23,16 @@ model, configuration (flags, adapter/watcher/effector/role-manager identity, fun
 
 The harness observes every wrapped method on sample enforcers (canonical snapshot before/after): a callee
 classified `reads`/`pure` that changes the snapshot is reported, which ties this list to the code.
+
+"Caches may be filled", precisely: a reading call may create the role object of a name the role manager has not met
+(`RoleManager._get_role`), build and keep the manager of a domain it has not served (`DomainManager._get_role_manager`)
+and re-derive the `g` closures into the function map. The protocol theorems are therefore also stated for an object
+that changes its REPRESENTATION under the read lock but not the abstraction the answers are about
+(`Props/C17.lean`, `Memo`, `memo_linearizable`, `memo_read_unobservable`). One memoisation is NOT of that kind: with a
+role matching function, the first sight of a name links it to the roles its pattern grants, and `get_users_for_role` of
+those roles lists it from then on (on a plain enforcer too). Since the repair of F33 that step is atomic and idempotent
+(created once under the role manager's own lock, published when linked); its linearizability is checked by the
+harness against all sequential orders (first-sight stream), not proved here.
 -/
 namespace Casbin.Synced
 
